@@ -29,7 +29,9 @@ def prop_rules():
     for line in subprocess.run(LINT + " -inventory props 2>/dev/null", shell=True, capture_output=True, text=True, env=ENV).stdout.splitlines():
         if line.startswith("C"):
             pid, rl = line.split(" ", 1)
-            pr[pid] = [x.split("[")[0] for x in rl.split(",")]
+            # "R14[Do,ConsumeEvent]" -> ("R14", ["Do", "ConsumeEvent"]); the rule list itself is comma separated
+            import re as _re
+            pr[pid] = [(mm.group(1), [a for a in (mm.group(2) or "").split(",") if a]) for mm in _re.finditer(r"(R[A-Za-z0-9]+)(?:\[([^\]]*)\])?", rl)]
     assert len(pr) == 20, pr
     return pr
 
@@ -126,7 +128,14 @@ def recheck():
             rl = sorted({v["rule"] for v in new.values()})
             m["rules"] = rl
             m["new_failing_obligations"] = sorted(new)
-            m["detected_by"] = sorted(pid for pid, r in pr.items() if any(x in r for x in rl))
+            def claims(rules_of_prop):
+                # a selector restricts a rule to obligations anchored in functions whose name contains one of its words
+                for rid, args in rules_of_prop:
+                    for v in new.values():
+                        if v["rule"] == rid and (not args or any(a in (v.get("func") or "") for a in args)):
+                            return True
+                return False
+            m["detected_by"] = sorted(pid for pid, r in pr.items() if claims(r))
             m["detected_by_own_property"] = m["property"] in m["detected_by"]
         json.dump(m, open(mp, "w"), indent=1)
     index()
